@@ -254,7 +254,10 @@ func c17(x *mc.Cell, depth int) {
 			n.Mgr.SubscribeToEvents(g1.cb)
 			n.Mgr.SubscribeToEvents(g2.cb)
 			c0 := Setup(n, CreatedPush, "requested", datatransfer.WithSubscriber(per.cb))
-			c1 := Setup(n, ReceivedPull, "accepted")
+			// the peer numbers its own transfers independently: its pull carries the same transfer id as our push, so
+			// the two channel ids differ in the initiator only (a per-transfer subscriber must still tell them apart)
+			c1 := mkReceived(n, true, uint64(c0.ID), datatransfer.ValidationResult{Accepted: true})
+			mc.Wait()
 			chans := []datatransfer.ChannelID{c0, c1}
 			var unsub3 datatransfer.Unsubscribe
 			g3from, g3to := -1, -1 // indexes into g1's log between which g3 was subscribed
